@@ -12,7 +12,7 @@ CHECKS = {
  'C05': dict(technique='runtime monitoring: invariant at a hook (register-allocator event log checked online against generator ground truth)',
              text='Exploration. The cfg(truth_verif) hook in assign_registers emits PoolInit/Alloc/Free events; every Alloc is checked against the registers the generator wrote into the '
                   'source (any position), the independently listed general-purpose set of the language, and the set of live allocations; refusals must carry an error diagnostic. Plus the directed single-mention workload (see C02) on TestLanguage, ANM and old ECL register files.',
-             note='General-purpose register lists per game are encoded independently in vlib/realenv.py. Lexical lifetimes assumed. Parameter registers are covered through the CLI sub workload.',
+             note='Third session: whole old-ECL files through the real truecl compile (2-4 subs with parameters calling each other, the file-global scratch-forbidding instruction in any one sub): no allocated register is a parameter register of its sub or mentioned in it, and the file-global refusal does not depend on the order of subs. General-purpose register lists per game are encoded independently in vlib/realenv.py. Lexical lifetimes assumed. Parameter registers are covered through the CLI sub workload.',
              design='3/C05'),
 }
 CHECKS['C06'] = dict(technique='runtime monitoring: AstVm differential oracle (block-structured body vs passes::desugar_blocks output)',
@@ -31,7 +31,7 @@ CHECKS['C04'] = dict(technique='runtime monitoring: crash/abort/CPU/allocation m
              text='Exploration. Every input is compiled in an isolated worker process through the exact CLI pipeline; the monitors observe worker death (abort, stack overflow, allocation failure), '
                   'panics (hook with site signature, including diagnostic-rendering panics), CPU seconds and peak allocation, and the oracle requires failure <=> an error-severity diagnostic was printed. '
                   'Inputs: grammar-generated files for all tools/games, token/byte mutants, a hostile list (extreme literals, reserved syntax, nesting to 256), mapfile texts. Thorough runs dev and release profiles. Plus the finite typing matrix of C09 (every operator/condition/count construct x int/float/string operands, in random nestings) and multi-byte characters inserted at every position of mapfiles.',
-             note='In-process wrappers of the private CLI run functions (cfg(truth_verif)); a sample is re-executed through the real process. Unbounded liveness restated as 20 CPU-seconds. Requests for legitimately '
+             note='Third session: the intrinsic matrix pairs every intrinsic kind with a statement that lowers through it and inserts padding at every position of every signature; label-valued arguments (timeof/offsetof) in parameters of every width; truncated section headers, user enums re-defining built-in names, multi-file gamemap cases (self reference, cycles, chains, missing files); calls in places that cannot express them (call sugar in timelines, functions nested in subs/scripts). In-process wrappers of the private CLI run functions (cfg(truth_verif)); a sample is re-executed through the real process. Unbounded liveness restated as 20 CPU-seconds. Requests for legitimately '
                   'enormous outputs (65535x65535 dummy image) are not treated as hostile.',
              design='3/C04')
 CHECKS['C16'] = dict(technique='runtime monitoring: crash/abort/CPU/allocation monitors + Result-vs-diagnostics oracle over mutated binary inputs',
@@ -44,20 +44,20 @@ CHECKS['C16'] = dict(technique='runtime monitoring: crash/abort/CPU/allocation m
 CHECKS['C01'] = dict(technique='runtime monitoring: round-trip oracle (bytes of compile(decompile(B)) vs B) over bundled and freshly compiled binaries, option subsets, widths, alias mapfiles',
              text='Exploration. B ranges over the 30 bundled binaries (all 32 option subsets each) and binaries truth just compiled from generated sources of every format/game; each is decompiled under sampled '
                   'option subsets x widths (x optional alias mapfile), recompiled (ANM with -i B) and compared bytewise; mismatches are classified by an independent layout parser (first differing field). Old-ECL sources contain runs of look-alike instructions under per-difficulty labels (with time labels inside the run, masks with holes, extra flag bits, incomplete covers), the inputs on which difficulty-switch recovery can go wrong.',
-             note='Loss-warning exemption = any decompile warning other than the byte-blob notice; exemptions are counted. Generators avoid constant conditions / unreferenced MSG scripts most of the time '
+             note='Third session: user mapfiles that add enums (int parameters re-declared enum-typed, shared constant names, own difficulty-flag names), non-monotone timeline times, difficulty labels on TH08+ timeline items. Loss-warning exemption = any decompile warning other than the byte-blob notice; exemptions are counted. Generators avoid constant conditions / unreferenced MSG scripts most of the time '
                   '(both are recorded known findings).',
              design='3/C01')
 CHECKS['C19'] = dict(technique='runtime monitoring: repeated fresh process launches with byte comparison of stdout, stderr and output files',
              text='Exploration. Each (command, input) is executed N times as fresh vtruth processes (new hash-map seeds each); all observations must be byte-identical. Inputs are constructed to have '
                   'competing entries at hash-map iterations that reach output (register-name clashes, enum definitions, too-complex notes, many simultaneous errors) plus generated/mutated sources, '
                   'decompiles and extracts. N = 8 quick (miss <= 2^-7 per 2-way race), 40 thorough. Constructed inputs now include one intrinsic assigned to several opcodes, several names for one opcode/register, and decompiles of files with many unknown or wrongly-signed opcodes.',
-             note='Probabilistic: a k-way hash-order race is missed with probability <= (1/k!)^(N-1)... at worst 2^-(N-1). Only the hash seed varies between runs (single-threaded tool).',
+             note='Third session: constructed inputs for unknown-enum diagnostics, suggestion ties, two intrinsics able to serve one construct, PCB call sites that disagree; a process killed by SIGKILL/SIGTERM is inconclusive (truth sends no signals). Probabilistic: a k-way hash-order race is missed with probability <= (1/k!)^(N-1)... at worst 2^-(N-1). Only the hash seed varies between runs (single-threaded tool).',
              design='3/C19')
 CHECKS['C08'] = dict(technique='runtime monitoring: print/parse round-trip oracle with a canonical AST serialiser, over generated, decompiled and directly built ASTs x widths',
              text='Exploration. For each AST x (parsed generated files of every format, the same with literals folded, decompiler output of corpus binaries, and directly built expression ASTs with negative '
                   'literals in every radix, all f32 classes, nested unary operators, switches with holes, hostile strings) and widths w in 1..200: parse(fmt(x,w)) must succeed, the canonical forms must be equal '
                   '(floats by bits) and printing the re-parsed script must give the same text.',
-             note='canon ignores spans, ids and integer display hints and identifies INF/NAN/true/false with their literals; idempotence is judged modulo integer display hints (hex/bin/bool/unsigned spellings are '
+             note='Third session: prefix operators in front of operands only reachable from text (calls, enum constants, pre-/post-increment, label properties, names starting with the letters of the legacy !ENHL syntax). canon ignores spans, ids and integer display hints and identifies INF/NAN/true/false with their literals; idempotence is judged modulo integer display hints (hex/bin/bool/unsigned spellings are '
                   'formatter hints the parser does not keep).',
              design='3/C08')
 CHECKS['C11'] = dict(technique='runtime monitoring: reference-model oracle (independent evaluator) over const_simplify output, const items, AstVm results and compiled bytes',
@@ -82,7 +82,7 @@ CHECKS['C12'] = dict(technique='runtime monitoring: reference-model oracle (inde
              text='Exploration. Random valid signatures (all parameter letters and attributes, padding anywhere, <= 16 parameters) are declared in a user mapfile; one call with boundary values / registers / strings '
                   'is compiled through the real ANM pipeline; the blob and register mask read by an independent layout parser must equal an independent encoder, the argument list printed by decompile must equal the '
                   'arguments written, re-encoding must reproduce the blob, and values that fit under neither reading / unencodable strings / oversize strings must be diagnosed. A register given to an immediate-only parameter (accepted with a warning) must be stored without a mask bit while still occupying its bit position.',
-             note='Conservative range rule (see DESIGN 3/C12). Jump (o,t) and arg0 parameters are exercised by C01/C13, not here. Registers only in 4-byte int and float slots.',
+             note='Third session: intrinsic instructions with padding anywhere in their signature (statement -> bytes -> statement -> bytes). Conservative range rule (see DESIGN 3/C12). Jump (o,t) and arg0 parameters are exercised by C01/C13, not here. Registers only in 4-byte int and float slots.',
              design='3/C12')
 CHECKS['C15'] = dict(technique='runtime monitoring: inverse-function oracle (decompiled literal == source string) over a character/length sweep under every string encoding',
              text='Exploration. Strings over the unambiguous Shift-JIS repertoire (incl. trail bytes 0x5C/0x7C/0x40 and bytes equal to the running mask) of lengths 0..300 around all block/buffer boundaries '
@@ -128,7 +128,7 @@ CHECKS['C03'] = dict(technique='runtime monitoring: boundary-value sweep of ever
                   'ANM entry and THTX header fields, sprite/script ids, STD layer/anm_script/unknown, MSG table flags, mission.msg entry fields, and sprite/script/object/quad/instance/sub counts at 65534..70000. '
                   'If the compile succeeds the stored bits must be the requested value (two\'s complement allowed), neighbouring fields and the following instruction must be intact, and truanm/trustd/trumsg/truecl '
                   'decompile must read the file back; otherwise an error diagnostic is required.',
-             note='Formats without a given field are not swept for it (offset_x/offset_y of ANM v0-v4). Values are limited to the i32 range of source literals. Rejecting an in-range value is counted, not judged.',
+             note='Third session: read-back is now judged by recompile equality (the text truth decompiles from its own output must compile to the same bytes, unless decompile printed a loss warning), header fields the format version has no room for must be refused when non-zero, and the time -1 x first-argument 4 combination of TH06/07 timelines is swept. Formats without a given field are not swept for it (offset_x/offset_y of ANM v0-v4). Values are limited to the i32 range of source literals. Rejecting an in-range value is counted, not judged.',
              design='3/C03')
 WIP = {}  # property -> reason (not claimed)
 
